@@ -637,6 +637,12 @@ def r7(ctx):
            f"standard(): turn {T.show(v['turn'])}, marker {T.show(v['enpassant_target'])}, half-move clock {word(v['half_move_clock'])}")
 
 
+@rule("C05.R8", "premise: a parsed board's derived state (checkers / pinned) is recomputed exactly, so parse(write(b)) agrees with b on it (C03.R4, C03.R6 re-run)")
+def r_premise(ctx):
+    from analysis.runner import premise
+    premise(ctx, "C03", {"C03.R4", "C03.R6"}, "the round trip must reproduce the derived state; the from-scratch computation of checkers/pinned run by the parser is no longer exact")
+
+
 # ------------------------------------------------------------------ controls
 def _swap_letters(P):
     v = P.own("values", DISPLAY + "::PIECES")
